@@ -420,7 +420,14 @@ def _den(w: World, e, comp, env):
         return w.funcs.apply("atan2", d(ops[0]), d(ops[1]))
     if isinstance(e, BesselFunction):
         kind = {"cyl_bessel_j": "J", "cyl_bessel_y": "Y", "cyl_bessel_i": "I", "cyl_bessel_k": "K"}[e._name]
-        return w.funcs.apply("bessel_" + kind, d(ops[0]), d(ops[1]))
+        v = w.funcs.apply("bessel_" + kind, d(ops[0]), d(ops[1]))
+        if w.complex and kind in ("Y", "K"):
+            # the second-kind functions are real only for positive real arguments: Y_0(-1) = Y_0(1) + 2i J_0(1), K_0(-1) = K_0(1) - i pi I_0(1)
+            # (like sqrt / ln, a real argument may give a complex value)
+            x = d(ops[1])
+            x = x.re if isinstance(x, N.Cx) else x
+            return N.Cx(v, w.funcs.apply("bessel_" + kind + "_im", d(ops[0]), N.base_value(x)))
+        return v
 
     # ---- compound tensor algebra (textbook definitions; conjugation conventions of C06)
     if isinstance(e, C.Transposed):
